@@ -279,10 +279,23 @@ def read_after_write(s):
     for first in ("plain", "str"):
         e = Element("a")
         c = Element("b")
+        c.setText("an earlier text")
         c.setText(s)
+        c.set("k", "an earlier value")        # (an attribute / a text assigned again holds the value assigned last)
         c.set("k", s)
         e.append(c)
-        one = getattr(e, first)()
+        try:
+            one = getattr(e, first)()
+            back = xmlread.parse(one.encode("utf-8"))["children"][0]
+            if not (back.get("text") in (s, norm_text(s)) or not is_clean(s)) or \
+                    not (back["attrs"].get((None, "k")) in (s, norm_attr(s)) or not is_clean(s)):
+                out.append("%s(): a value assigned over an earlier one is not what is written: %r / %r"
+                           % (first, back.get("text"), back["attrs"].get((None, "k"))))
+        except xmlread.XmlError:
+            pass                                  # (strings suds cannot carry at all are judged by the other paths)
+        except Exception as e_:
+            out.append("%s() raised after an attribute was assigned twice: %r" % (first, e_))
+            continue
         if str(c.getText() or "") != s or str(c.get("k") or "") != s:
             out.append("%s() changed the value held by the tree: %r / %r" % (first, c.getText(), c.get("k")))
         if e.plain() != Element.plain(e) or getattr(e, first)() != one:
